@@ -704,10 +704,10 @@ Definition value_xml_name (tag : option string) : res name :=
   end.
 
 (** resp.Err() == nil: no status element, or a 2xx code.  propstat.Status.Err()
-    == nil: code 200. *)
+    == nil: a 2xx code (after repair 0cc51a3; before it only 200). *)
 Definition resp_err_nil (code : option N) : bool :=
   match code with None => true | Some c => N.eqb (N.div c 100) 2 end.
-Definition status_err_nil (code : N) : bool := N.eqb code 200.
+Definition status_err_nil (code : N) : bool := N.eqb (N.div code 100) 2.
 
 (** Response.DecodeProp(v) up to the call of raw.Decode(v): which raw value is
     decoded.  [resp_code] is the code of the response's status element, if
